@@ -44,6 +44,12 @@ ASSUMPTIONS = [
 TRUSTED = [
     "gen/valid_ops.py: validity BY CONSTRUCTION of the generated documents (the specification side of the oracle); "
     "gen/violations.py: each injector breaks exactly the labelled rule",
+    "the overlap theorems for the code /repo runs (Props/C06_overlap_memo*.lean, C06_head_memo.lean) are stated about "
+    "`overlapMemoRun` (memoised search folded over the typed enumeration); for the rule run ALONE it is proved equal to the "
+    "chain with the memoised search inside (`runM`, the model compared with the real validator): Props/C06_overlap_memo_chain.lean "
+    "`runM_alone_eq` (and still cross-checked on every rule-alone answer: `memo:alone-vs-chain`); inside the full 26-rule "
+    "chain the overlap rule additionally loses the selection sets below a node another rule skipped - modelled by `runM`, "
+    "not covered by a theorem",
 ]
 
 VALIDATE = REPO / "src/py_gql/validation/validate.py"
@@ -450,6 +456,11 @@ def run_corpus(ctx, collect):
     # every pair is checked against the oracle; for the model correspondence all of them (thorough) or a sample (quick)
     keep = None if ctx.tier != "quick" else set(ctx.rng.sample(range(len(pairs["cases"])), min(160, len(pairs["cases"]))))
     run_cases(ctx, collect, pairs, "type-pairs", keep)
+    mm = memo_mode_table()
+    # direct oracle: every case; model correspondence: every invalid case, the valid twins in two of the six orders (quick)
+    keepm = None if ctx.tier != "quick" else {i for i, c in enumerate(mm["cases"])
+                                              if not c["spec_valid"] or c["sig"].endswith(("order012", "order210"))}
+    run_cases(ctx, collect, mm, "memo-modes", keepm)
 
 
 def run_cases(ctx, collect, data, tag, keep=None):
@@ -570,6 +581,89 @@ def type_pair_table():
                 cases.append(case)
     _TYPE_PAIRS = {"sdl": sdl, "cases": cases}
     return _TYPE_PAIRS
+
+
+# ---------------------------------------------------------------------------
+# the (field map, fragment) memo of OverlappingFieldsCanBeMerged under BOTH exclusivity modes (seeded C06-11):
+# the same sub-selection is compared with the same fragment once under mutually exclusive parents (only response
+# shapes matter) and once under overlapping parents (names / arguments matter too), in either order. Exhaustive over
+# the order of the three same-key fields, the path to the fragment ((I) direct spread, (E) through another fragment,
+# (B) the set's own spread), the kind of conflict (different field / different arguments) and the wrapper (inline
+# fragments / named fragments); valid twins (all parents exclusive; strict comparison without conflict first).
+# Run on EVERY run (deterministic block, stable signatures); each case also carries a reordered twin so that the
+# perm_selections oracle sees an order-dependent verdict.
+# ---------------------------------------------------------------------------
+
+MEMO_MODES_SDL = ("type Query { pet: Pet }\n"
+                  "interface Pet { owner: Human }\n"
+                  "type Human { label: String nickname: String tag(n: Int): String }\n"
+                  "type Dog implements Pet { owner: Human }\n"
+                  "type Cat implements Pet { owner: Human }\n"
+                  "type Bird implements Pet { owner: Human }\n")
+
+_MEMO_MODES = None
+
+
+def memo_mode_table():
+    global _MEMO_MODES
+    import itertools
+    if _MEMO_MODES is not None:
+        return _MEMO_MODES
+    kinds = {"field": ("label", "label: nickname", "label"), "args": ("t: tag(n: 1)", "t: tag(n: 2)", "t: tag(n: 1)")}
+    cases = []
+
+    def doc(sels, frags, wrapper):
+        """sels: [(type, sub-selection text)] in order"""
+        extra = []
+        parts = []
+        for i, (ty, sub) in enumerate(sels):
+            if wrapper == "inline":
+                parts.append("... on %s { owner { %s } }" % (ty, sub))
+            else:
+                parts.append("...W%d" % i)
+                extra.append("fragment W%d on %s { owner { %s } }" % (i, ty, sub))
+        return "{ pet { %s } } %s" % (" ".join(parts), " ".join(frags + extra))
+
+    for kind, (plain, clash, same) in sorted(kinds.items()):
+        for path in ("I", "E"):
+            spread = "...Y" if path == "I" else "...X"
+            frags = ["fragment Y on Human { %s }" % clash] + (["fragment X on Human { ...Y }"] if path == "E" else [])
+            zfrags = frags + ["fragment Z on Human { %s }" % same]
+            for wrapper in ("inline", "named"):
+                fam = {
+                    # f1 (Dog, plain K), f2 (Cat, ...Y), f3 (Dog, ...Y): f1/f3 conflict whatever the order
+                    "excl-then-strict": ([("Dog", plain), ("Cat", spread), ("Dog", spread)], frags, False),
+                    # all three parents mutually exclusive: valid
+                    "all-exclusive": ([("Dog", plain), ("Cat", spread), ("Bird", spread)], frags, True),
+                    # strict comparison WITHOUT conflict (Z repeats K), exclusive one with a different field: valid
+                    "strict-ok-then-excl": ([("Dog", plain), ("Dog", "...Z"), ("Cat", spread)], zfrags, True),
+                }
+                for name, (sels, fr, ok) in sorted(fam.items()):
+                    for order in itertools.permutations(range(3)):
+                        text = doc([sels[i] for i in order], fr, wrapper)
+                        other = doc([sels[i] for i in reversed(order)], fr, wrapper)
+                        sig = "overlapping:memo-modes:%s:%s:%s:%s:order%s" % (name, kind, path, wrapper, "".join(map(str, order)))
+                        case = {"id": "memo:" + sig, "text": text, "spec_valid": ok, "sig": sig,
+                                "why": "same (field map, fragment) compared under mutually exclusive AND overlapping parents"}
+                        if not ok:
+                            # (the valid twins are enumerated in all six orders anyway)
+                            case["same_verdict_as"] = [{"text": other, "transform": "reorder_selections"}]
+                            case["rules"] = ["OverlappingFieldsCanBeMergedChecker"]
+                        cases.append(case)
+        # (B): the set's own spread, after an exclusive comparison of the same set with the same fragment
+        for wrapper in ("inline", "named"):
+            frags = ["fragment Y on Human { %s }" % clash]
+            sels = [("Dog", plain + " ...Y"), ("Cat", "...Y")]
+            for order in ((0, 1), (1, 0)):
+                text = doc([sels[i] for i in order], frags, wrapper)
+                other = doc([sels[i] for i in reversed(order)], frags, wrapper)
+                sig = "overlapping:memo-modes:own-spread:%s:B:%s:order%s" % (kind, wrapper, "".join(map(str, order)))
+                cases.append({"id": "memo:" + sig, "text": text, "spec_valid": False, "sig": sig,
+                              "rules": ["OverlappingFieldsCanBeMergedChecker"],
+                              "why": "a set compared with a fragment under exclusive parents, then with its own spread of it",
+                              "same_verdict_as": [{"text": other, "transform": "reorder_selections"}]})
+    _MEMO_MODES = {"sdl": MEMO_MODES_SDL, "cases": cases}
+    return _MEMO_MODES
 
 
 class CorpusWorld:
